@@ -458,6 +458,118 @@ def explore(ctx, h, drv, n, nops, label):
         audit_images(ctx, drv, cases)
 
 
+# ---------------------------------------------------------------- node pages: sixteen 256-byte nodes share one 4K page
+#
+# A node page goes back to the free-space map when its last node is destroyed (_sblk_destroy / _sblk_is_only_one_on_page_v2).
+# Which slot survives matters, so the histories are built from the placement the implementation reports: a first run fills
+# a database and prints page and slot of every node (`nodes2`); the case then repeats the same puts (same seed, same levels:
+# same placement) and deletes every record except those of chosen nodes - the only node left on a page sits in slot 16, in
+# slot 1, in a random slot, or two nodes stay - with an image (audited by the Lean reader: bitmap == occupied blocks) after
+# every batch of deletes, after a refill that reuses the freed pages, and after close.
+
+def gen_page_history(r, h, label, idx):
+    n = r.choice([560, 800, 1100])
+    keys = r.sample(range(1000, 1000 + 3 * n), n)
+    mode = r.choice(["asc", "desc", "random"])
+    if mode == "asc":
+        keys.sort()
+    elif mode == "desc":
+        keys.sort(reverse=True)
+    key = lambda k: G.H(k.to_bytes(4, "big"))
+    fill = ["open 0 1 0", "db 1 0"]
+    for k in keys:
+        fill.append("put 1 %s 0 %s 0 %d" % (key(k), G.H(bytes(r.randrange(256) for _ in range(r.choice([0, 1, 3, 9])))), r.choice(LINK_LEVELS)))
+    rc, out, e = C.run_lines([h, C.scratch() + "/kv6p-%s.db" % label], fill + ["nodes2 1", "close"], timeout=300)
+    if rc != 0 or len(out) < len(fill) + 1 or not out[len(fill)].startswith("nodes2 "):
+        return None, "placement run failed rc=%s %s" % (rc, e[-200:])
+    place = [tuple(int(x) for x in w.split(":")) for w in out[len(fill)].split()[1:]]      # chain order = descending keys
+    desc = sorted(keys, reverse=True)
+    if sum(p[2] for p in place) != len(desc):
+        return None, "placement run: %d records in the nodes, %d put" % (sum(p[2] for p in place), len(desc))
+    nodes, at = [], 0
+    for (page, slot, pnum) in place:
+        nodes.append((page, slot, desc[at:at + pnum]))
+        at += pnum
+    pages = {}
+    for nd in nodes:
+        pages.setdefault(nd[0], []).append(nd)
+    shape = r.choice(["last", "last", "first", "rand", "two", "lastfirst"])
+    keep = set()
+    for page, nds in pages.items():
+        slots = {nd[1]: nd for nd in nds}
+        if shape == "last":
+            want = [max(slots)]
+        elif shape == "first":
+            want = [min(slots)]
+        elif shape == "rand":
+            want = [r.choice(sorted(slots))]
+        elif shape == "two":
+            want = r.sample(sorted(slots), min(2, len(slots)))
+        else:
+            want = [max(slots)] if r.random() < 0.5 else [min(slots)]
+        if r.random() < 0.15:
+            want = []                                       # the whole page goes
+        for sl in want:
+            ks = slots[sl][2]
+            keep.update(ks if r.random() < 0.3 else r.sample(ks, 1))
+    ops = list(fill)
+    dels = [k for k in keys if k not in keep]
+    how = r.choice(["asc", "desc", "random", "bynode"])
+    if how == "asc":
+        dels.sort()
+    elif how == "desc":
+        dels.sort(reverse=True)
+    elif how == "random":
+        r.shuffle(dels)
+    else:                                                   # node after node, nodes in random order
+        order = list(range(len(nodes)))
+        r.shuffle(order)
+        dels = [k for i in order for k in nodes[i][2] if k not in keep]
+    k_img = 0
+    step = r.choice([40, 120, 400])
+    for i, k in enumerate(dels):
+        ops.append("del 1 %s 0" % key(k))
+        if (i + 1) % step == 0:
+            k_img += 1
+            ops.append("image @IMG%d" % k_img)
+    ops.append("image @IMGdrained")
+    # refill: new nodes and data blocks land on what the drain gave back
+    top = max(keys) + 1
+    for j in range(r.choice([40, 200])):
+        ops.append("put 1 %s 0 %s 0 %d" % (key(top + j), G.H(_val(r, r.choice([3, 40, 300]))), r.choice(LINK_LEVELS)))
+    ops += ["image @IMGrefilled", "close", "image @IMGclosed"]
+    d = os.path.join(C.scratch(), "img")
+    os.makedirs(d, exist_ok=True)
+    ops = [l.replace("@IMG", os.path.join(d, "%s-%d-" % (label, idx))) for l in ops]
+    info = dict(shape=shape, pages=len(pages), full_pages=sum(1 for v in pages.values() if len(v) == 16), nodes=len(nodes), kept=len(keep), order=how)
+    return Case("pages", ops, None, key=hash(tuple(ops))), info
+
+
+def explore_pages(ctx, h, drv, n, label):
+    r = C.Rng(ctx.seed, "c06/pages/" + label)
+    cases = []
+    for i in range(n):
+        c, info = gen_page_history(r, h, label, i)
+        if c is None:
+            ctx.corr_broken.append("node page stream: " + info)
+            return
+        cases.append(c)
+        ctx.hist("pages:shape:" + info["shape"])
+        ctx.hist("pages:full_pages", info["full_pages"])
+        ctx.hist("pages:nodes", info["nodes"])
+        if i < 2:
+            ctx.sample(dict(kind="pages", **info))
+    canon = lambda l: "image" if l.startswith("image ") else l
+    probs = differential(ctx, [h, C.scratch() + "/kv6p-%s.db" % label], [drv, "kv"] if drv else None, cases, timeout=900, canon=canon)
+    for c, p in probs:
+        if p[0] == "diverge":
+            ctx.corr_broken.append("model/implementation diverge at op %d `%s`: impl `%s` model `%s`" % (p[1], c.ops[p[1]][:100], p[2][:160], p[3][:160]))
+        else:
+            ctx.fail(c01.signature(c, p), dict(ops=c.ops, detail=p[1:]), str(p[1])[:400])
+    if drv:
+        audit_images(ctx, drv, cases)
+
+
 # ---------------------------------------------------------------- single data block: writer model `IwModel.KvBlk`
 
 VSIZES = [0, 0, 1, 2, 3, 5, 8, 12, 20, 40, 60, 90, 110, 120, 124, 125, 126, 127, 128, 129, 130, 200, 300, 500, 900, 1500, 3000]
@@ -709,11 +821,13 @@ def run(ctx):
         explore(ctx, h, drv, 40, 250, "q")
         link_stream(ctx, h, drv, 12, 150, 8, "q")           # link stream (explicit-link model)
         link_stream(ctx, h, drv, 4, 150, 8, "qc", cursors=True)
+        explore_pages(ctx, h, drv, 6, "pq")
     else:
         explore(ctx, h, drv, 500, 300, "t")
         explore(ctx, h, drv, 10, 6000, "tl")
         link_stream(ctx, h, drv, 60, 300, 12, "t")          # link stream (explicit-link model)
         link_stream(ctx, h, drv, 30, 300, 12, "tc", cursors=True)
+        explore_pages(ctx, h, drv, 60, "pt")
     if drv:
         ctx.cov["rule"] += ("; block stream: one database with <= 32 keys (one node, one data block), puts / cursor sets with growing and shrinking values, "
                             "deletes, forced compaction, an image after EVERY op: the Lean writer model of one data block (IwModel.KvBlk) replays the ops and "
